@@ -322,10 +322,10 @@ func init() {
 		return &Check{ID: "C02",
 			Runs: []Run{{S: sc, Opt: map[Tier]Options{
 				Quick:    {Depth: 4, Budget: 150 * time.Second, ReplayEvery: 16},
-				Thorough: {Depth: 6, Budget: 25 * time.Minute, ReplayEvery: 32, MaxStates: 500000},
+				Thorough: {Depth: 6, Budget: 12 * time.Minute, ReplayEvery: 32, MaxStates: 500000},
 			}}, {S: c02Orders(), Opt: map[Tier]Options{
 				Quick:    {Depth: 5, Budget: 100 * time.Second, ReplayEvery: 16},
-				Thorough: {Depth: 8, Budget: 20 * time.Minute, ReplayEvery: 32, MaxStates: 500000},
+				Thorough: {Depth: 8, Budget: 8 * time.Minute, ReplayEvery: 32, MaxStates: 500000},
 			}}},
 			Owns:        ownsAny("supply", "invariant:bank"),
 			Assumptions: []string{"IBC vouchers (the only other Minter permission) are out of scope: no IBC channel exists in the explored chains"},
